@@ -256,3 +256,74 @@ def ldpc_generator_all_small(cfg):
             bad = {"H": rows, "G": Gl, "rank_H": rk}
             break
     yield "rows_are_a_basis_of_the_null_space_of_H", bad is None, f"all {count} binary {r}x{n} check matrices with a non-trivial null space" if bad is None else f"fails for H = {bad['H']}: {bad}"
+
+
+# ---------------------------------------------------------------------------------------- construction sequences (state shared between instances)
+def _seq_cfgs(tier):
+    fams = [("bch", 4, 5), ("bch", 3, 3), ("cyclic", 7, 11), ("hamming", 3, False), ("hamming", 3, True), ("golay", False)]
+    if tier == "thorough":
+        fams += [("bch", 4, 7), ("bch", 5, 7), ("cyclic", 15, 19), ("rs", 3, 3)]
+    return [codes.Cfg("sequence", *f) for f in fams]
+
+
+@obligation(
+    "C01.construction_sequences",
+    function=F + "bch_code.py:BCHCodeEncoder.__init__; " + F + "bch_code.py:BCHCodeEncoder._compute_check_matrix; " + F + "cyclic_code.py:CyclicCodeEncoder.__init__; " + F + "systematic_linear_block_code.py:SystematicLinearBlockCodeEncoder.__init__; " + F + "bch_code.py:compute_bch_generator_polynomial",
+    configs=_seq_cfgs,
+    kind="ground",
+    engine="ground",
+)
+def construction_sequences(cfg):
+    """several encoders of ONE family and parameter set are constructed in one process with different information sets (explicit
+    lists A, B, 'left', A again, 'right', B reversed): every one of them must satisfy the invariant on its OWN G and H and encode as
+    m.G - constructors must not share state (caches, memoised matrices) across information sets"""
+    import itertools as _it
+    import random as _random
+
+    from kaira.models.fec import encoders as E
+
+    fam = cfg[1]
+    rng = _random.Random(hash_stable(str(cfg)) + codes.SEED)
+
+    def make(info):
+        if fam == "bch":
+            return E.BCHCodeEncoder(cfg[2], cfg[3], information_set=info)
+        if fam == "cyclic":
+            return E.CyclicCodeEncoder(code_length=cfg[2], generator_polynomial=cfg[3], information_set=info)
+        if fam == "hamming":
+            return E.HammingCodeEncoder(cfg[2], extended=cfg[3], information_set=info)
+        if fam == "golay":
+            return E.GolayCodeEncoder(extended=cfg[2], information_set=info)
+        return E.ReedSolomonCodeEncoder(cfg[2], cfg[3], information_set=info)
+
+    probe = make("left")
+    k, n = probe.generator_matrix.shape
+    A = sorted(rng.sample(range(n), k))
+    B = rng.sample(range(n), k)
+    while sorted(B) == A:
+        B = rng.sample(range(n), k)
+    order = [A, B, "left", A, "right", list(reversed(B)), B]
+    encs = [(info, make(info)) for info in order]
+    bad = []
+    for pos, (info, enc) in enumerate(encs):
+        G = SP.int_matrix(enc.generator_matrix)
+        H = SP.int_matrix(enc.check_matrix)
+        Gm, Hm = Gd.rows_to_masks(G), Gd.rows_to_masks(H)
+        ok = Gd.rank(Gm) == k and Gd.gf2_mul_GHt(Gm, Hm) and Gd.rank(Hm) == n - k
+        # the information set is honoured: message bit j sits at position info[j] of the codeword
+        if ok and not isinstance(info, str):
+            for j in range(k):
+                msg = torch.zeros(1, k)
+                msg[0, j] = 1.0
+                cw = enc(msg)[0]
+                want = torch.tensor([float(v) for v in G[j]])
+                ok = ok and bool(torch.equal(cw, want)) and float(cw[info[j]]) == 1.0
+        if not ok:
+            bad.append((pos, info))
+    yield "every_instance_consistent_with_its_own_information_set", not bad, f"{len(encs)} encoders built in sequence {['L' if i == 'left' else 'R' if i == 'right' else i for i in order]}" + (f"; inconsistent (G, H, encoder) at positions {bad}" if bad else "")
+
+
+def hash_stable(s):
+    import zlib
+
+    return zlib.crc32(s.encode())
